@@ -132,6 +132,14 @@ impl L1Table {
     }
 }
 
+#[cfg(feature = "verif-hooks")]
+impl L1Table {
+    /// number of top-table blocks queued for write-back
+    pub fn verif_dirty_blocks(&self) -> usize {
+        self.dirty_blocks.borrow().len()
+    }
+}
+
 impl_top_table_traits!(L1Table, L1Entry, data);
 
 impl From<Qcow2IoBuf<L1Entry>> for L1Table {
